@@ -8,16 +8,16 @@ import tempfile
 
 ID = "C07"
 LEVEL = "proof"
-# harness.cpp is compiled in 14 parts, 4 at a time (props/C07/pcxx.py): ~40 s instead of ~95 s after a change of /repo/include
+# harness.cpp is compiled in 15 parts, 4 at a time (props/C07/pcxx.py): ~40 s instead of ~95 s after a change of /repo/include
 HARNESSES = [{"name": "main", "src": "harness.cpp",
               "compiler": os.path.join(os.path.dirname(os.path.abspath(__file__)), "pcxx.py"),
-              "flags": ["-std=c++2b", "-O1", "-fno-lifetime-dse", "-DTETL_ENABLE_CONTRACT_CHECKS=1", "-DC07_NPARTS=14"]},
+              "flags": ["-std=c++2b", "-O1", "-fno-lifetime-dse", "-DTETL_ENABLE_CONTRACT_CHECKS=1", "-DC07_NPARTS=15"]},
              # ASan+UBSan build of the same harness (thorough tier; also picked up by C02's aggregated sanitizer run).
              # -O0: the instrumented -O1 build costs ~6 CPU-minutes, -O0 ~2.5
              {"name": "asan", "src": "harness.cpp", "thorough_only": True,
               "compiler": os.path.join(os.path.dirname(os.path.abspath(__file__)), "pcxx.py"),
               "flags": ["-std=c++2b", "-O0", "-fno-lifetime-dse", "-fsanitize=address,undefined",
-                        "-fno-sanitize-recover=all", "-DTETL_ENABLE_CONTRACT_CHECKS=1", "-DC07_NPARTS=14"]}]
+                        "-fno-sanitize-recover=all", "-DTETL_ENABLE_CONTRACT_CHECKS=1", "-DC07_NPARTS=15"]}]
 
 RULE = ("a case is a whole operation history on two objects a,b (plus an optional<U>/unexpected<E2> c); exhaustive: "
         "every history of depth <= 2 over the FULL op alphabet (all alternatives x 3 values x emplace/in_place by index "
@@ -365,6 +365,99 @@ def sm_cases(quick, search, rng):
     return out
 
 
+# ---- value_or with a fallback of another arithmetic type: vor.<T><U> <engaged> <held> <fallback>
+# a value of a floating type travels as TWICE its value (only multiples of 1/2 the type holds exactly are used)
+VO_T = "siulfd"
+VO_U = "bcsiulfd"
+VO_RANGE = {"b": (0, 1), "c": (-128, 127), "s": (-32768, 32767), "i": (-2**31, 2**31 - 1), "u": (0, 2**32 - 1),
+            "l": (-2**63, 2**63 - 1)}
+VO_MANT = {"f": 24, "d": 53}
+
+
+def vo_round(p, z):
+    """round to nearest, ties to even, to p significant bits (TypesVo.round_to)"""
+    a = abs(z)
+    if a < 2**p:
+        return z
+    m = 1 << (a.bit_length() - p)
+    q, r = divmod(a, m)
+    if 2 * r > m or (2 * r == m and q % 2 == 1):
+        q += 1
+    return (q * m) if z >= 0 else -(q * m)
+
+
+def vo_fit(t, v):
+    """v if the type holds it (floating: v is the doubled value), else None"""
+    if t in VO_MANT:
+        return v if abs(v) < 2**62 and vo_round(VO_MANT[t], v) == v else None
+    lo, hi = VO_RANGE[t]
+    return v if lo <= v <= hi else None
+
+
+def vo_pool(t):
+    """boundary values: around every power of two where a narrower or a floating type starts to lose digits"""
+    ints = {0, 1, -1, 2, 5, 7, 42, 99, 70000, -70000, 16777217, -16777217, 16777219, 33554434, 9007199254740993,
+            -9007199254740993, 9007199254740995, 1099511627777, 4611686018427387905}
+    for k in (7, 8, 15, 16, 23, 24, 25, 26, 31, 32, 33, 40, 52, 53, 54, 55, 62, 63):
+        for d in (-65, -1, 0, 1, 3):
+            ints.add(2**k + d)
+            ints.add(-(2**k) + d)
+    if t in VO_MANT:
+        # the integers above (doubled), the odd halves of small values, and whatever survives rounding to the precision
+        cand = {2 * v for v in ints} | {1, -1, 3, 5, 85, -85, 255, -257, 65535, 2**24 + 1, 2**25 + 1, -(2**25) - 1, 2**31 - 1,
+                                        2**32 + 1, 2**53 + 1, 2**54 + 1}
+        cand |= {vo_round(VO_MANT[t], v) for v in list(cand)}
+        return sorted(v for v in cand if vo_fit(t, v) is not None)
+    return sorted(v for v in ints if vo_fit(t, v) is not None)
+
+
+def vo_rand(rng, t):
+    """a random value of the type: a power of two plus a small or a random offset, either sign"""
+    k = rng.randint(0, 63)
+    v = 2**k + rng.choice((0, 1, -1, 2, 3, rng.randint(0, 2**k)))
+    if rng.random() < 0.5:
+        v = -v
+    if t in VO_MANT:
+        v = vo_round(VO_MANT[t], v)
+        return v if vo_fit(t, v) is not None else 2 * rng.randint(-100, 100) + 1
+    lo, hi = VO_RANGE[t]
+    return v if lo <= v <= hi else lo + v % (hi - lo + 1)
+
+
+def vo_defined(T, U, engaged, fb):
+    """static_cast<T>(fallback) is evaluated on the disengaged path only; floating -> integer is undefined when the
+    truncated value is out of range ([conv.fpint]); such inputs are not generated"""
+    if engaged or U not in VO_MANT or T in VO_MANT:
+        return True
+    q = abs(fb) // 2 * (1 if fb >= 0 else -1)
+    lo, hi = VO_RANGE[T]
+    return lo <= q <= hi
+
+
+def vor_cases(quick, search, rng):
+    out = []
+    pools = {t: vo_pool(t) for t in set(VO_T + VO_U)}
+    for T in VO_T:
+        for U in VO_U:
+            op = f"vor.{T}{U}"
+            few = sorted(set([pools[U][0], pools[U][-1]] + [v for v in pools[U] if abs(v) <= 5][:3] + [pools[U][len(pools[U]) // 2]]))
+            if not search:
+                for h in pools[T]:
+                    for fb in (few if quick else pools[U]):
+                        out.append(f"{op} 1 {h} {fb}")
+                for fb in pools[U]:
+                    if vo_defined(T, U, False, fb):
+                        out.append(f"{op} 0 0 {fb}")
+                        if not quick:
+                            out.append(f"{op} 0 {pools[T][-1]} {fb}")
+            for _ in range(60 if quick else 1500):
+                e = rng.randint(0, 1)
+                h, fb = vo_rand(rng, T), vo_rand(rng, U)
+                if vo_defined(T, U, e, fb):
+                    out.append(f"{op} {e} {h} {fb}")
+    return out
+
+
 def histories(alpha, depth):
     for d in range(1, depth + 1):
         for h in itertools.product(alpha, repeat=d):
@@ -517,6 +610,8 @@ def gen(tier, rng):
         out.append(line("cbref.d", rand_hist(rng, core, 4, 12)))
     # ---------------- special members by triviality
     out += sm_cases(quick, search, rng)
+    # ---------------- value_or with a fallback of another arithmetic type
+    out += vor_cases(quick, search, rng)
     # ---------------- visit dispatcher: every size tuple in {1..4}^k, k<=3, every active tuple
     for k in (1, 2, 3):
         for sizes in itertools.product((1, 2, 3, 4), repeat=k):
@@ -528,7 +623,7 @@ def gen(tier, rng):
 def nontrivial(case, impl):
     if not impl.startswith("ok"):
         return False
-    return case.startswith("disp") or " ; " in impl
+    return case.startswith("disp") or case.startswith("vor.") or " ; " in impl
 
 
 # --------------------------------------------------------------------------------------------------------------
